@@ -295,6 +295,20 @@ class RepoModel:
         check locals first where it matters)."""
         mod = f.module if isinstance(f, FunctionInfo) else f
         if isinstance(node, ast.Name):
+            if isinstance(f, FunctionInfo):
+                li = self._local_imports(f)
+                if node.id in li:
+                    base, attr = li[node.id]
+                    if attr is None:
+                        return ("mod", base) if base in self.modules else ("lib", base)
+                    if base in self.modules:
+                        r = self.resolve_global(base, attr)
+                        if r is not None:
+                            return r
+                        if f"{base}.{attr}" in self.modules:
+                            return ("mod", f"{base}.{attr}")
+                        return None
+                    return ("lib", f"{base}.{attr}")
             return self.resolve_global(mod.name, node.id)
         if isinstance(node, ast.Attribute):
             base = self.resolve_expr(f, node.value)
@@ -310,6 +324,24 @@ class RepoModel:
                     return ("func", meth)
             return None
         return None
+
+    def _local_imports(self, f: FunctionInfo):
+        cached = getattr(f.node, "_verif_local_imports", None)
+        if cached is not None:
+            return cached
+        out = {}
+        g = f
+        while g is not None:
+            for n in walk_no_nested(g.node):
+                if isinstance(n, ast.Import):
+                    for al in n.names:
+                        out.setdefault(al.asname or al.name.split(".")[0], (al.name if al.asname else al.name.split(".")[0], None))
+                elif isinstance(n, ast.ImportFrom) and not n.level:
+                    for al in n.names:
+                        out.setdefault(al.asname or al.name, (n.module, al.name))
+            g = g.parent
+        f.node._verif_local_imports = out
+        return out
 
     def resolve_call(self, f: FunctionInfo, call: ast.Call) -> Callee:
         fn = call.func
@@ -332,7 +364,7 @@ class RepoModel:
                 if q in self.functions:
                     return Callee("repo", func=self.functions[q])
                 g = g.parent
-            if fn.id in local_names(f.node) and fn.id not in f.module.ns:
+            if fn.id in local_names(f.node) and fn.id not in f.module.ns and fn.id not in self._local_imports(f):
                 return Callee("unknown")
         r = self.resolve_expr(f, fn)
         if r is None:
